@@ -148,7 +148,7 @@ def run(ctx):
                              meta['N'] if meta['v0'] else 0, meta['K'] if meta['v0'] else 0, meta['v0'], [], [])
         e2e += [line, line2]
         pairs.append((300000 + 2 * k, 300000 + 2 * k + 1, line, line2))
-    res2 = ctx.component('K-E2E', e2e)
+    res2 = ctx.component('K-E2E(weighted vs expanded, implementation only)', e2e, model=False)
     n_eval = 0
     keys = set()
     if res:
